@@ -2,6 +2,7 @@
 // -Dmain=osmt_real_main) inside one process.  Protocol on fd 0 (requests) / fd 3 (responses), both binary,
 // length-prefixed.  stdout/stderr of the solver go to files given on the command line (truncated per
 // job) so that the driver can still read them when the worker dies in the middle of a job.
+// VERIF_VARIANTS: rel asan
 //
 // request : u32 len | u8 mode | u8 trace | u32 nargs | (u32 n, bytes)* | u32 n, script | u32 nsplit | u32* splits
 //   mode 0: script is written to <scratch>.smt2 and passed as last argv (file mode)
